@@ -9,11 +9,11 @@ BASELINE_OFF = ("cd /repo && cargo nextest run --workspace --no-fail-fast --test
 CHECKS = {
  "C01": ("exploration", "exhaustive enumeration of SDK-encoded requests per operation x routing-relevant deviations x addressing/host configurations, and of the full raw product method x path kind x query-flag subsets x header subsets against a reference router derived from the Smithy model, on the real S3Service::call",
          "DESIGN §4 C01",
-         "Operation side: for all 96 operations the request aws-sdk-s3 encodes for base() and for each single deviation of each query/header-bound member, under 5 addressing x host-parser combinations, must reach exactly that backend method. Request side: 8 methods x 4 path kinds x every subset (size <=2, thorough 3) of ~55 query flags/members x all 8 subsets of the discriminating headers (~5e5 requests), the resolved route observed at the access hook and compared with a most-specific-match reference router built only from data/s3.json. The object key is deviated too (blanks, + % & = / ? #, escape-shaped text incl. one whose second decoding is not UTF-8, non-ASCII, 1024 bytes).",
+         "Operation side: for all 96 operations the request aws-sdk-s3 encodes for base() and for each single deviation of each query/header-bound member, under 5 addressing x host-parser combinations, must reach exactly that backend method. Request side: 8 methods x 4 path kinds x every subset (size <=2, thorough 3) of ~55 query flags/members x all 8 subsets of the discriminating headers (~5e5 requests), the resolved route observed at the access hook and compared with a most-specific-match reference router built only from data/s3.json. The object key is deviated too (blanks, + % & = / ? #, escape-shaped text incl. one whose second decoding is not UTF-8, non-ASCII, 1024 bytes). Raw paths include valid bucket names at the edges of the naming rules (digits only, digit labels that are no IP address, 63 characters) in both addressing styles.",
          "requests whose most-specific match is not unique, or which carry a sub-resource flag foreign to the denoted operation, are counted and not judged; flag subsets larger than the bound are not covered"),
  "C02": ("exploration", "bounded exhaustive enumeration (deviation bound 1, thorough 2) of operation inputs encoded by the official SDK and decoded by the adapter, field-wise comparison at a recording backend in a direct and a proxied configuration; every instance of each rejection mutation (duplicate, ill-typed, missing, length mismatch) on the SDK-encoded requests; on the real S3Service::call",
          "DESIGN §4 C02",
-         "For 95 operations base() and every single deviation (thorough: every pair on different members) of every modelled input member over the alphabet of its wire position is encoded by aws-sdk-s3 1.82 (independent of s3s's codecs), sent through the real service and compared member by member (streams by bytes) with what the recording backend received, both directly and through client -> adapter -> s3s-aws Proxy -> SDK -> second adapter. Disagreements are attributed to the conversion layer, the adapter's decoder or the wire. Rejection half: on each SDK-encoded request with every optional header/query/meta member present once, every instance of {duplicate with same/other value in either order, value outside the member's type, required member removed, Content-Length +-1/0, body one byte short} must give a 4xx S3 error and an empty backend log. Ill-formed payloads (second root, text outside the root, every truncation of the SDK's full payload) must be refused by the whole adapter for every XML-bodied operation.",
+         "For 95 operations base() and every single deviation (thorough: every pair on different members) of every modelled input member over the alphabet of its wire position is encoded by aws-sdk-s3 1.82 (independent of s3s's codecs), sent through the real service and compared member by member (streams by bytes) with what the recording backend received, both directly and through client -> adapter -> s3s-aws Proxy -> SDK -> second adapter. Disagreements are attributed to the conversion layer, the adapter's decoder or the wire. Rejection half: on each SDK-encoded request with every optional header/query/meta member present once, every instance of {duplicate with same/other value in either order, value outside the member's type, required member removed, Content-Length +-1/0, body one byte short} must give a 4xx S3 error and an empty backend log. Ill-formed payloads (second root, text outside the root, every truncation of the SDK's full payload) must be refused by the whole adapter for every XML-bodied operation. Per leaf of every payload, escaped character data and a CDATA section denoting the same characters (a text that looks like escaped markup) must get the same verdict and the same typed input.",
          "aws-sdk-s3 is the trusted encoder; inputs the SDK refuses to build and members it adds itself are counted and listed, not judged; WriteGetObjectResponse is unreachable through a client (C01's listed finding); values outside the alphabets and >k simultaneous members are not covered"),
  "C03": ("exploration", "bounded exhaustive enumeration (deviation bound 1, thorough 2) of operation outputs returned by a scripted backend and decoded by the official SDK, x response metadata; for keep-alive completion the full product of backend completion delays (every millisecond over 3.5 tick periods, thorough 10) x outcomes x consumer polling disciplines under tokio's paused clock; on the real S3Service::call",
          "DESIGN §4 C03",
@@ -25,11 +25,11 @@ CHECKS = {
          "one step = one task runs from one file-system await to the next; finer interleavings (inside one tokio::fs call) and power-loss semantics (unsynced pages) are outside the space"),
  "C18": ("model_checking", "explicit-state breadth-first search with the real s3s-fs backend as transition function against a reference in-memory store; canonical-state hashing; full read set evaluated in every state",
          "DESIGN §4 C18, §2 E4",
-         "All histories over a small universe (quick: 1 bucket, 2 keys, 2 contents, 2 metadata values, 2 identities, 1 upload; thorough: 2 buckets, 3 keys, 4 contents up to 3 read buffers, 2-part uploads) are explored to a fixpoint of (model, disk) states; every transition runs on the implementation and is compared with the reference map, and in every reached state every key is read under every Range form, headed, listed under every prefix/start-after, and uploads are listed. Chained operations reach the non-initial states where the defects live (stale metadata, resurrected buckets). Two further universes: parts 1..3 of one upload (each the backend's minimum part size plus its number, or 2 bytes; contents depend on the part number) uploaded and re-uploaded in every order and completed as [1], [1,2], [1,2,3], [2,1] - searched to the fixpoint - and one history of eleven parts uploaded in descending order: the object is the concatenation in part order, also read across the seam between parts.",
+         "All histories over a small universe (quick: 1 bucket, 2 keys, 2 contents, 2 metadata values, 2 identities, 1 upload; thorough: 2 buckets, 3 keys, 4 contents up to 3 read buffers, 2-part uploads) are explored to a fixpoint of (model, disk) states; every transition runs on the implementation and is compared with the reference map, and in every reached state every key is read under every Range form, headed, listed under every prefix/start-after, and uploads are listed. Chained operations reach the non-initial states where the defects live (stale metadata, resurrected buckets). Two further universes: parts 1..3 of one upload (each the backend's minimum part size plus its number, or 2 bytes; contents depend on the part number) uploaded and re-uploaded in every order and completed as [1], [1,2], [1,2,3], [2,1] - searched to the fixpoint - and one history of eleven parts uploaded in descending order: the object is the concatenation in part order, also read across the seam between parts. A checksum universe (puts that declare CRC32 and SHA-256, two contents of one length, copies, a multipart completion onto the keys): a checksum returned with a read is the checksum of the content read.",
          "only property-defined observables are compared; where the statement is silent the model follows the implementation; universe sizes bound the histories; thorough is wall-capped and reports whether the fixpoint was reached"),
  "C17": ("exploration", "exhaustive enumeration of traversal-rich keys / copy sources / bucket names / upload ids x backend operations on the real s3s-fs backend, with whole-tree snapshot diff and marker search",
          "DESIGN §4 C17",
-         "All sequences of 1..3 segments over a 12-symbol traversal alphabet (with/without leading slash, plus deep escapes) x 18 operations at the S3 trait and GET/PUT/DELETE/copy through S3Service::call in three spellings, against a store with two marked buckets, a foreign open upload and a marked sentinel tree beside and above the root; after every operation the complete directory tree is diffed and everything read back is searched for foreign markers; plus all interleavings of two concurrent writers to different objects under the controlled scheduler. The history search of legitimate operations includes a key that turns another key into a directory, so that operations fail half-way and their failure paths are judged too.",
+         "All sequences of 1..3 segments over a 12-symbol traversal alphabet (with/without leading slash, plus deep escapes) x 18 operations at the S3 trait and GET/PUT/DELETE/copy through S3Service::call in three spellings, against a store with two marked buckets, a foreign open upload and a marked sentinel tree beside and above the root; after every operation the complete directory tree is diffed and everything read back is searched for foreign markers; plus all interleavings of two concurrent writers to different objects under the controlled scheduler. The history search of legitimate operations includes a key that turns another key into a directory, so that operations fail half-way and their failure paths are judged too. Part (iv): every object-level operation addressed to a 'bucket' that is the name of one of the backend's own bookkeeping files (or . / ..), with self-cancelling and plain keys: nothing served, nothing changed.",
          "symbolic links are not part of the space; segment alphabet and length <=3 bound the keys"),
  "C13": ("exploration", "bounded exhaustive enumeration of values per type (all single-member deviations) and of every instance of each document mutation operator, with differential oracles and an independent tokenizer, on the real public XML codec",
          "DESIGN §4 C13",
@@ -61,7 +61,7 @@ CHECKS = {
          "clock owned through the verif-hooks seam; forms arrive in one frame (framing is C09); repeated fields and unknown condition operators are not judged"),
  "C09": ("model_checking", "stateless exhaustive exploration of transport schedules (frame partitions, empty frames, Pending/wake) with a deviation bound, directly on the real S3Service::call; differential oracle plus lost-wake-up detection under a virtual clock",
          "DESIGN §4 C09, §2 E2",
-         "For each of the four body kinds (and 8 variants of the form whose file ends in CR/LF shapes) every schedule with at most k deviations from the default (k=2 quick, 3 thorough; a deviation is a cut point, an empty frame or a Pending-then-wake before any frame or before end-of-stream) is executed to completion on the implementation and compared with the single-frame run, as is every uniform partition into frames of 2..96 bytes; a schedule that leaves the request Pending with no wake-up is detected deterministically through tokio's paused clock. Schedules are executions of the real code, so no model-code gap exists.",
+         "For each of the four body kinds (and 8 variants of the form whose file ends in CR/LF shapes) every schedule with at most k deviations from the default (k=2 quick, 3 thorough; a deviation is a cut point, an empty frame or a Pending-then-wake before any frame or before end-of-stream) is executed to completion on the implementation and compared with the single-frame run, as is every uniform partition into frames of 2..96 bytes; a schedule that leaves the request Pending with no wake-up is detected deterministically through tokio's paused clock. Schedules are executions of the real code, so no model-code gap exists. Faulty requests are bases too (signed final chunk corrupted / missing, a data chunk corrupted - streamed and buffered chunk-signed bodies, the latter also in one data chunk -, a form cut before its closing delimiter, a body that is not the digest-signed one): a refusal must be as independent of the framing as an acceptance.",
          "bodies are the four stated ones (16..892 bytes); more than k simultaneous deviations only in the all-1-byte schedules; hyper's wire parser is below the seam"),
  "C08": ("fault_enumeration", "exhaustive single-fault injection at every position of reference-encoded uploads under three framings, judged by a reference decoder at the backend's body stream, on the real S3Service::call",
          "DESIGN §4 C08",
@@ -69,7 +69,7 @@ CHECKS = {
          "reference encoder validated on the AWS documentation example; in the 64 KiB chunk, data-byte flips and truncations are taken on a stride (stated in the evidence), all header bytes are covered"),
  "C07": ("exploration", "full-product enumeration of request classes x operations x service configurations with a reference monitor over the ordered event log, on the real S3Service::call",
          "DESIGN §4 C07",
-         "All histories of up to 2 (thorough 3) requests over 25 request kinds (four schemes x two identities x honest/forged, anonymous) on one service instance; then the complete product of 16 request classes x all 96 operations (plus the POST form) x provider x 6 access-hook modes x 4 route modes x host parser is executed; a reference monitor checks on every event log that identities shown are the verified signer's, that check -> typed hook -> backend are ordered and agree on the operation, that nothing follows a denial and the denial's code is returned, and that without a provider any request presenting a signature is refused. No bound is needed: the space is finite and fully enumerated.",
+         "All histories of up to 2 (thorough 3) requests over 25 request kinds (four schemes x two identities x honest/forged, anonymous) on one service instance; then the complete product of 16 request classes x all 96 operations (plus the POST form) x provider x 6 access-hook modes x 4 route modes x host parser is executed; a reference monitor checks on every event log that identities shown are the verified signer's, that check -> typed hook -> backend are ordered and agree on the operation, that nothing follows a denial and the denial's code is returned, and that without a provider any request presenting a signature is refused. No bound is needed: the space is finite and fully enumerated. An unknown access key is presented signed with a registered secret and signed with the empty secret.",
          "base requests are what aws-sdk-s3 encodes for base inputs; reference signers validated on documentation vectors; which operation a request denotes is C01's subject (here the stages must agree with each other)"),
  "C06": ("exploration", "bounded exhaustive enumeration of presigned URLs x expiry values x clock instants x single-parameter mutations, differential against a reference verifier, on the real S3Service::call with an owned clock",
          "DESIGN §4 C06",
@@ -81,7 +81,7 @@ CHECKS = {
          "clock read through the verif-hooks seam; sub-resource list as documented today (torrent not in the grid)"),
  "C05": ("exploration", "bounded exhaustive enumeration of signed requests x single-component mutations, differential against a reference verifier, on the real S3Service::call",
          "DESIGN §4 C05",
-         "All histories of up to 3 requests from two identities (honest / signed with the other identity's secret, two scopes, led by any other scheme) on one service instance, then a grid of honestly signed requests (5 methods x 15 paths x 10 query multisets x 10 signed-header shapes x payload/mode x HTTP/1.1|HTTP/2) times every applicable single-component mutation and 6 canonical-equivalent rewrites; every case runs through the real service and is compared with a reference verifier written from the AWS specification. Exhaustive over the stated grid: both directions of the iff (accept honest, reject every tampering) are decided per case. Paths include keys with empty segments (a path is never normalised); a slash of the path is doubled as a mutation.",
+         "All histories of up to 3 requests from two identities (honest / signed with the other identity's secret, two scopes, led by any other scheme) on one service instance, then a grid of honestly signed requests (5 methods x 15 paths x 10 query multisets x 10 signed-header shapes x payload/mode x HTTP/1.1|HTTP/2) times every applicable single-component mutation and 6 canonical-equivalent rewrites; every case runs through the real service and is compared with a reference verifier written from the AWS specification. Exhaustive over the stated grid: both directions of the iff (accept honest, reject every tampering) are decided per case. Paths include keys with empty segments (a path is never normalised); a slash of the path is doubled as a mutation. The query multisets include a pair sent twice; 'this pair once more' is a mutation.",
          "reference signer validated on the AWS documentation vectors at start-up and against the aws-sigv4 crate on every grid point (disagreeing points excluded and counted); values outside the grid and multi-component tampering are not covered"),
  "C20": ("exploration", "bounded exhaustive enumeration of pattern x input pairs and policy document shapes against a reference model, on the real code",
          "DESIGN §4 C20",
